@@ -101,6 +101,18 @@ def PerChain.pick {β : Type} (d : β) : PerChain β → Nat → β
 def chainArgs {I K : Type} (dI : I) (dK : K) (merge : K → K → K) (initial : PerChain I) (kwargs : PerChain K) (fixed : K) (i : Nat) : I × K :=
   (initial.pick dI i, merge (kwargs.pick dK i) fixed)
 
+/-! keyword dictionaries as association lists; `{**a, **b}`: where both have a key, `b`'s value wins -/
+abbrev Kw (β : Type) := List (String × β)
+
+def kwLookup {β : Type} (d : Kw β) (k : String) : Option β := (d.find? (fun e => e.1 == k)).map (·.2)
+
+def kwMerge {β : Type} (a b : Kw β) : Kw β := b ++ a
+
+/-- the keyword arguments chain `i` is started with:
+    `{**{"initial_model": initial_model[i]}, **kwargs[i], **fixed_kwargs}` -/
+def totalKwargs {β : Type} (init : β) (kwargs fixed : Kw β) : Kw β :=
+  kwMerge (kwMerge [("initial_model", init)] kwargs) fixed
+
 section
 variable {V α : Type}
 /-- what one chain does for proposal `k` when it runs on its own: its kernel, then the append -/
